@@ -34,13 +34,14 @@ type FullState struct {
 	GovParams  *fsm.GovernanceParams
 	FeeParams  *fsm.FeeParams
 	NonSigners map[string]*fsm.NonSigner
-	Other      map[byte]int // number of keys under the remaining prefixes
+	Retired    map[uint64]bool // retired committees (prefix 14)
+	Other      map[byte]int    // number of keys under the remaining prefixes
 }
 
 // DecodeFull decodes a scan (Chain.Scan) into a FullState.
 func DecodeFull(scan map[string][]byte) (*FullState, error) {
 	rs := &FullState{Accounts: map[string]*fsm.Account{}, Pools: map[uint64]*fsm.Pool{}, Validators: map[string]*fsm.Validator{},
-		NonSigners: map[string]*fsm.NonSigner{}, Other: map[byte]int{}, Supply: new(fsm.Supply)}
+		NonSigners: map[string]*fsm.NonSigner{}, Retired: map[uint64]bool{}, Other: map[byte]int{}, Supply: new(fsm.Supply)}
 	keys := make([]string, 0, len(scan))
 	for k := range scan {
 		keys = append(keys, k)
@@ -128,6 +129,11 @@ func DecodeFull(scan map[string][]byte) (*FullState, error) {
 			if e := lib.Unmarshal(v, rs.Supply); e != nil {
 				return nil, e
 			}
+		case 14:
+			if len(segs) != 2 || len(segs[1]) != 8 {
+				return nil, fmt.Errorf("retired committee key shape %x", k)
+			}
+			rs.Retired[binary.BigEndian.Uint64(segs[1])] = true
 		default:
 			rs.Other[segs[0][0]]++
 		}
